@@ -670,7 +670,7 @@ func (e *textEnc) container(v *model.Value, depth int) {
 	for i, k := range v.Kids {
 		if i > 0 {
 			if v.Kind == model.Sexp {
-				e.ws(d, true)
+				e.ws(d, e.sepNeeded())
 			} else {
 				e.ws(d, false)
 				co := len(e.x.b)
@@ -695,6 +695,25 @@ func (e *textEnc) container(v *model.Value, depth int) {
 	co := len(e.x.b)
 	e.x.put(RPunct, d, cl)
 	e.x.site("close", co, 1, d, int64(v.Kind))
+}
+
+// sepNeeded decides whether the next value of a sequence without commas (top level, s-expression) needs a
+// separator: after a closing bracket, a lob or a short string the next token may follow directly ("[1]3", "{}{}",
+// "\"a\"b"); the renderer leaves the blank out every other time in dense mode and now and then otherwise.
+func (e *textEnc) sepNeeded() bool {
+	k := len(e.x.b)
+	if k == 0 || e.o.R == nil {
+		return true
+	}
+	last, role := e.x.b[k-1], e.x.m[k-1].Role
+	delimiting := (role == RPunct && (last == ']' || last == ')' || last == '}')) || (role == RLob && last == '}') || (role == RQuoted && last == '"')
+	if !delimiting {
+		return true
+	}
+	if e.o.Dense {
+		return e.rnd(2) == 0
+	}
+	return e.rnd(6) != 0
 }
 
 // prevIsLong reports whether the last significant (non-whitespace, non-comment) byte emitted belongs to a
@@ -724,7 +743,7 @@ func Text(items []Item, o TextOpts) *Out {
 	for i, it := range items {
 		if i > 0 {
 			off := len(e.x.b)
-			e.ws(0, true)
+			e.ws(0, e.sepNeeded())
 			e.x.site("top-ws", off, len(e.x.b)-off, 0, 0)
 		}
 		if it.BVM {
